@@ -28,7 +28,8 @@ MANIFEST = dict(
     technique='schema-directed typestate analysis of the vm_* deserialisers (natural-number type parameters as patterns, passed arguments checked); abstract interpretation of VmStack.serialize on all value kinds with the emitted cell decoded by a schema-directed decoder; identity/effect check on caller-held containers',
     text='Decides that every vm_* parser issues exactly the reads block.tlb prescribes for each constructor and length pattern, that the serialiser\'s output for every value kind, every integer boundary of the '
          '64/257-bit forms, tuples of length 0..4 (nested) and every continuation kind is a VmStack per the schema (decoded exactly), that parsing it back returns equal values in order, and that serialising '
-         'leaves the caller\'s list and tuples untouched (second serialisation identical).',
+         'leaves the caller\'s list and tuples untouched (second serialisation identical).'
+         ' Loop continuations constructed with their keywords in another order than the scheme serialise in scheme order.',
     note='trusted: interpreter, TL-B lowering and decoder, bitarray model. Not decided: stacks deeper / tuples longer than the enumerated patterns (the code is uniform in n; the n, n+1, n+2 patterns cover every branch).',
     design_ref='DESIGN.md section 4 C17')
 
